@@ -290,10 +290,11 @@ class MetropolisChain(MarkovChain):
                         """
                     )
 
-            self.display_progress = display_progress
-            self.ProgressPrinter = ChainProgressPrinter(
-                display=self.display_progress, leading_msg="advancing chain:"
-            )
+        # created unconditionally so that chains rebuilt by load() can also be advanced
+        self.display_progress = display_progress
+        self.ProgressPrinter = ChainProgressPrinter(
+            display=self.display_progress, leading_msg="advancing chain:"
+        )
 
     def take_step(self):
         """
